@@ -149,8 +149,11 @@ def nontrivial(c, ir, mr):
 
 
 def by_label_problem(ir):
-    for fl, win, ws in (ir.get("by_label") or []) if isinstance(ir, dict) else []:
+    for fl, win, ws, *ttl in (ir.get("by_label") or []) if isinstance(ir, dict) else []:
         want = [8192, 7] if fl == "S" else [16384, 2]
+        if ttl and ttl[0] != 61 and [win, ws] == want:
+            return {"kind": "impersonation by label with extra_hops: the TTL is not signature TTL - extra_hops (the looked-up record drifts from call to call?)",
+                    "why": "base %s: TTL %s, expected 64 - 3; sequence %s" % (fl, ttl[0], ir["by_label"]), "judged_by": "C05 statement (distance extra_hops) + C12 (records are not altered)"}
         if [win, ws] != want:
             return {"kind": "impersonation by label used a record of the other direction (or none)", "why": "base %s: window / scale %s, the record of its direction says %s; sequence %s" % (fl, [win, ws], want, ir["by_label"]),
                     "judged_by": "C14 statement (the output is built from the requested signature) + C15_sound"}
